@@ -420,3 +420,13 @@ func (h *hx) e2ePair(cfg srvCfg, cli uint64, host string, t0 int64) {
 
 var VerifE2EClientSession func(priv crypto.PrivKey, host string, ncalls int,
 	beforeCall func(call int), respond func(call int, reqHdr string) (status int, www, info string)) ([]peer.ID, []error)
+
+// one request of a history across hostnames: the server (URL) it goes to and its
+// req.Host ("" = a hand-built request without Host; the transport then sends the URL's host)
+type VerifHostReq struct {
+	Srv  int
+	Host string
+}
+
+var VerifE2EClientHosts func(priv crypto.PrivKey, nsrv int, plan func(urlHosts []string) []VerifHostReq,
+	beforeCall func(call int), respond func(call, srv int, seenHost, reqHdr string) (status int, www, info string)) ([]peer.ID, []error)
